@@ -317,17 +317,60 @@ theorem reselect_reorg_stream (r : Repo) (hc : ChainWF r) (r2 : Repo) (evs : Lis
   rw [ho, hn]
   exact Spec.applyStream_reorg pre p rest evs hlink hnd hne
 
+/-! ### a single root -/
+
+/-- only branch 0 has no parent. -/
+def SingleRoot (ar : Arena) : Prop :=
+  ∀ (bi : Nat) (b : Branch), ar[bi]? = some b → b.parent = none → bi = 0
+
+theorem singleRoot_processHeader (r : Repo) (h : Hdr) (ok : Bool) (hsr : SingleRoot r.arena)
+    (hnc : ∀ pb ph lst, precheck r h ok = .inr (pb, ph, lst) →
+      Int.tmod ((r.br pb).height + 1) (Facts.autoCleanModulus : Int) ≠ 0) :
+    SingleRoot (processHeader r h ok).1.arena := by
+  cases processHeader_shape r h ok hnc with
+  | same ha hb _ => rw [ha]; exact hsr
+  | fork pb ph lst nb hp hne hn ha hb _ =>
+    rw [ha]
+    obtain ⟨l2, w, _, _, hnb⟩ := newBranch_ok_shape r pb ph h nb hn
+    intro bi b hbi hpar
+    by_cases hlt : bi < r.arena.length
+    · rw [List.getElem?_append_left hlt] at hbi
+      exact hsr bi b hbi hpar
+    · have hlen := getElem?_lt _ _ _ hbi
+      simp only [List.length_append, List.length_cons, List.length_nil] at hlen
+      have he : bi = r.arena.length := by omega
+      subst he
+      simp only [List.getElem?_concat_length, Option.some.injEq] at hbi
+      subst hbi
+      rw [hnb] at hpar
+      cases hpar
+  | extend pb ph lst w hp hprev hlen hbw ha hb _ =>
+    rw [ha]
+    have hbr : r.arena[pb]? = some (r.br pb) := by
+      unfold Repo.br; rw [List.getElem?_eq_getElem hlen]; rfl
+    intro bi b hbi hpar
+    by_cases he : bi = pb
+    · subst he
+      rw [List.getElem?_set_self hlen] at hbi
+      simp only [Option.some.injEq] at hbi
+      rw [← hbi] at hpar
+      exact hsr bi (r.br bi) hbr hpar
+    · rw [List.getElem?_set_ne (Ne.symm he)] at hbi
+      exact hsr bi b hbi hpar
+
 /-! ### all invariants together -/
 
 structure StreamWF (r : Repo) : Prop where
   chain : ChainWF r
   below : BelowTip r.arena
+  single : SingleRoot r.arena
 
 theorem streamWF_processHeader (r : Repo) (h : Hdr) (ok : Bool) (hs : StreamWF r)
     (hnc : ∀ pb ph lst, precheck r h ok = .inr (pb, ph, lst) →
       Int.tmod ((r.br pb).height + 1) (Facts.autoCleanModulus : Int) ≠ 0) :
     StreamWF (processHeader r h ok).1 :=
-  ⟨chainWF_processHeader r h ok hs.chain hnc, belowTip_processHeader r h ok hs.chain.wf hs.below hnc⟩
+  ⟨chainWF_processHeader r h ok hs.chain hnc, belowTip_processHeader r h ok hs.chain.wf hs.below hnc,
+   singleRoot_processHeader r h ok hs.single hnc⟩
 
 theorem streamWF_submitAll (r : Repo) (hs : List (Hdr × Bool)) (hc : StreamWF r) (hq : NoAutoClean r hs) :
     StreamWF (submitAll r hs) := by
@@ -341,9 +384,9 @@ theorem streamWF_submitAll (r : Repo) (hs : List (Hdr × Bool)) (hc : StreamWF r
 /-- the invariants only read the forest, the branch list and the heights map. -/
 theorem streamWF_congr (r r' : Repo) (ha : r'.arena = r.arena) (hb : r'.branches = r.branches)
     (hh : r'.heights = r.heights) (hs : StreamWF r) : StreamWF r' := by
-  obtain ⟨⟨⟨h1, h2, h3, h4⟩, h5, h6⟩, h7⟩ := hs
+  obtain ⟨⟨⟨h1, h2, h3, h4⟩, h5, h6⟩, h7, h8⟩ := hs
   refine ⟨⟨⟨by rw [ha]; exact h1, by rw [ha, hb]; exact h2, by rw [ha, hb]; exact h3, ?_⟩,
-    by rw [ha]; exact h5, by rw [ha]; exact h6⟩, by rw [ha]; exact h7⟩
+    by rw [ha]; exact h5, by rw [ha]; exact h6⟩, by rw [ha]; exact h7, by rw [ha]; exact h8⟩
   intro id x hg
   rw [hh] at hg
   rw [ha]
